@@ -256,3 +256,27 @@ def rebased(sc, rnd, p=0.5):
             cur = sh
         out += body
     return out
+
+
+def tmacro_line(be):
+    """the table of harness/gen/macro_table.inc (written with the public construction macros) in the tinit vocabulary"""
+    from macrotable import MACRO_AREAS, MACRO_REGS
+    return 'tmacro' + tinit(be, MACRO_AREAS, MACRO_REGS)[5:]
+
+
+def macro_script(rnd):
+    from macrotable import MACRO_AREAS, MACRO_REGS
+    out = []
+    for be in (0, 1):
+        sc = [tmacro_line(be)]
+        for h, (ty, addr, ck, lo, hi, df) in enumerate(MACRO_REGS):
+            m = (1 << BITS[ty]) - 1
+            vals = [df, lo, hi, (lo - 1) & m, (hi + 1) & m, (lo + 1) & m, (hi - 1) & m] + boundary_values(ty)[:5]
+            if ty in (F32, F64):
+                vals = [df, lo, hi] + boundary_values(ty)[:8]
+            for bits in vals:
+                sc += [set_(h, ty, bits, 0), 'get %d' % h]
+            sc.append(set_(h, (ty + 3) % 8, 1, 0))
+        sc += ['bread 0 9', 'bread 198 6', 'bread 208 6', 'bwrite 200 1 5', 'bwrite 210 1 5', 'bwrite 220 2 1 2', 'bwrite 230 1 9', 'bread 219 4', 'get 48', 'get 49', 'get 50', 'get 51']
+        out.append(sc)
+    return out
